@@ -297,15 +297,15 @@ def systematic(depth):
 
 def generate(rng, tier):
     big = tier == 'thorough'
-    for c in systematic(3 if not big else 5):
+    for c in systematic(3 if not big else 4):
         yield c
-    for _ in range(2500 if not big else 40000):
+    for _ in range(2500 if not big else 25000):
         yield gen_local(rng)
-    for _ in range(2500 if not big else 40000):
+    for _ in range(2500 if not big else 25000):
         yield gen_upstream_close(rng, rng.choice(['tunnel', 'tunnel', 'http']))
     for _ in range(8 if not big else 60):
         yield gen_local(rng, big=True)
-    for _ in range(1500 if not big else 20000):
+    for _ in range(1500 if not big else 12000):
         yield gen_shut(rng)
     for _ in range(6 if not big else 40):
         yield gen_shut(rng, big=True)
